@@ -9,7 +9,6 @@ import (
 
 	lisp "github.com/jig/lisp"
 	"github.com/jig/lisp/env"
-	"github.com/jig/lisp/lib/core/nscore"
 	"github.com/jig/lisp/types"
 
 	"verifharness/internal/enum"
@@ -174,13 +173,22 @@ func init() {
 		}
 		nOps := int64(len(c12Operands))
 		nMac := func() int64 { return mgOf().Count(0, mW()) * nOps * nOps }
+		// programs whose macro expansions change between two evaluations of the same call site (the
+		// expander reads a global or an atom, or the macro is redefined in between)
+		fixedProgs := [][]string{
+			{"(def k 5)", "(defmacro mk (fn [] k))", "(def f (fn [] (mk)))", "(def r1 (f))", "(def k 50)", "(list r1 (f) (t! (f)))"},
+			{"(defmacro m2 (fn [] 1))", "(def g (fn [] (t! (m2))))", "(def r1 (g))", "(defmacro m2 (fn [] 2))", "(list r1 (g))"},
+			{"(def a (atom 0))", "(defmacro ma (fn [] (swap! a inc)))", "(def h (fn [] (ma)))", "(list (h) (h) (t! (deref a)))"},
+			{"(def k 1)", "(defmacro mq (fn [v] (list (quote +) v k)))", "(def f (fn [v] (mq v)))", "(def x (f 1))", "(def k 10)", "(def y (f 1))", "(list x y)"},
+		}
+		nFixed := int64(len(fixedProgs))
 		size := func() int64 {
 			n := nForms()
 			if tier == "thorough" {
 				m := nLeaf()
-				return n*n + nMac() + m*m*m
+				return n*n + nMac() + nFixed + m*m*m
 			}
-			return n*n + nMac()
+			return n*n + nMac() + nFixed
 		}
 		progOf := func(i int64) []V {
 			n := nForms()
@@ -196,12 +204,20 @@ func init() {
 					model.List(sym("mac"), a), model.List(sym("mac"), b)}
 			}
 			i -= nMac()
+			if i < nFixed {
+				var out []V
+				for _, t := range fixedProgs[i] {
+					out = append(out, model.FromImpl(lx.MustRead(t)))
+				}
+				return out
+			}
+			i -= nFixed
 			m := nLeaf()
 			return []V{gOf().Unrank(0, i/(m*m)), gOf().Unrank(0, (i/m)%m), gOf().Unrank(0, i%m)}
 		}
 		fam := &vf.Family{
 			Name:   "programs-x-layouts-x-routes",
-			Bounds: fmt.Sprintf("programs: every sequence of 2 top-level forms, each a core-form program of weight <=2 (thorough: also every sequence of 3 weight-1 forms) (C01 grammar + throw, (t! x), a string, a string containing TAB and CR, a map literal), and every template macro (C12 code grammar, weight <=2, thorough <=3; the expander logs an effect) defined in one top-level form and called in two further ones over every pair of 7 operands; %d layouts (single line, form per line, comments between all tokens, blank lines, CRLF, no final newline, trailing comment without newline, tabs + leading comment); routes: READ with module, READ with nil cursor, cursor-free AST built from Go, READ(PRINT(ast)), forms one by one through REPL (named cursor / nil cursor), one wrapping do, load-file from a file", len(c19Layouts)),
+			Bounds: fmt.Sprintf("programs: every sequence of 2 top-level forms, each a core-form program of weight <=2 (thorough: also every sequence of 3 weight-1 forms) (C01 grammar + throw, (t! x), a string, a string containing TAB and CR, a map literal), and every template macro (C12 code grammar, weight <=2, thorough <=3; the expander logs an effect) defined in one top-level form and called in two further ones over every pair of 7 operands, and 4 programs in which the expansion of one call site changes between two evaluations (expander reading a global / an atom, macro redefined); %d layouts (single line, form per line, comments between all tokens, blank lines, CRLF, no final newline, trailing comment without newline, tabs + leading comment); routes: READ with module, READ with nil cursor, cursor-free AST built from Go, READ(PRINT(ast)), forms one by one through REPL (named cursor / nil cursor), one wrapping do, load-file from a file", len(c19Layouts)),
 			Setup:  setup,
 			N:      func(t string) int64 { tier = t; return size() },
 			Describe: func(i int64) string {
@@ -317,9 +333,7 @@ func init() {
 					if tier == "thorough" || li == 2 || li == 4 || li == 5 || li == 6 {
 						path := filepath.Join(rg.dir, "prog.lisp")
 						os.WriteFile(path, []byte(text), 0o644)
-						root := env.NewEnv()
-						nscore.Load(root)
-						nscore.LoadInput(root)
+						root := lx.NewFullEnv()
 						rg.tracer.Install(root)
 						rg.tracer.Reset()
 						res, err, p := lx.Eval(context.Background(), types.List{Val: []types.MalType{types.Symbol{Val: "load-file"}, path}}, root)
